@@ -450,3 +450,14 @@ def outer_loop_header(B, block):
         if all(h == o or B.path([0], [h], cut_blocks=[o]) is not None for o in cands):
             best = h
     return best
+
+
+# value-changing calls that provenance (mir.Body.origins) deliberately looks through; identity rules must exclude them
+LOSSY = ("to_lowercase", "to_uppercase", "to_ascii_lowercase", "to_ascii_uppercase", "trim", "trim_start", "trim_end", "trim_matches",
+         "unwrap_or", "unwrap_or_default", "unwrap_or_else", "ok", "first", "last", "next", "to_string_lossy", "take", "skip", "filter",
+         "filter_map", "find", "rev", "get_mut", "into_boxed_str")
+
+
+def lossy_via(B, o):
+    """names of value-changing calls on the way from the operand to its origins (empty = carried over verbatim)"""
+    return sorted({base_name(v).rsplit("::", 1)[-1] for v in B.via(o) if base_name(v).rsplit("::", 1)[-1] in LOSSY})
